@@ -167,18 +167,18 @@ func runHdrScenario(cr *childResult, rng *hk.Rand, sidx int) {
 		// sizes as hpack counts them: name + value + 32 per field; the fixed fields as one item
 		var sizes []string
 		for f := 0; f < fields; f++ {
-			sizes = append(sizes, fmt.Sprint(8+pad/fields+32))
+			sizes = append(sizes, coqBigNat(8+pad/fields+32))
 		}
-		sizes = append(sizes, fmt.Sprint(3*(len(tag)+60)))
+		sizes = append(sizes, coqBigNat(3*(len(tag)+60)))
 		total := fields*(8+pad/fields+32) + 3*(len(tag)+60)
 		flen := total // upper bound for the encoded length (small / over)
 		if class == "far" {
 			flen = pad * 6 / 10 // lower bound: Huffman needs at least 6 bits for these characters
 		}
-		obs = append(obs, fmt.Sprintf("(%s, %d, %s, %d)", hk.CoqList(sizes), flen, hk.CoqBool(delivered), ci))
+		obs = append(obs, fmt.Sprintf("(%s, %s, %s, %d)", hk.CoqList(sizes), coqBigNat(flen), hk.CoqBool(delivered), ci))
 		desc = append(desc, map[string]interface{}{"tag": tag, "class": class, "pad": pad, "fields": fields, "delivered": delivered, "conn": ci})
 	}
-	coq := fmt.Sprintf("H2HdrCase %d %s", limit, hk.CoqList(obs))
+	coq := fmt.Sprintf("H2HdrCase %s %s", coqBigNat(limit), hk.CoqList(obs))
 	cr.add(coq, map[string]interface{}{"kind": "h2hdr", "max_header_list_size": limit, "steps": desc}, coq, nontrivial)
 }
 
@@ -355,4 +355,13 @@ func runAsyncDump(cr *childResult, rng *hk.Rand, seed uint64, n int) {
 		coq := fmt.Sprintf("AsyncDumpCase %s %s", hk.CoqList(cs), coqRLE(dumped))
 		cr.add(coq, map[string]interface{}{"kind": "asyncdump", "direction": dir, "tag": tag, "chunks": len(chunks)}, coq, len(chunks) >= 2 || dir == "h2-upload")
 	}
+}
+
+// coqBigNat writes a nat that may be large without a unary literal (a literal n costs n nested
+// constructors in coqc's memory).
+func coqBigNat(n int) string {
+	if n < 500 {
+		return fmt.Sprint(n)
+	}
+	return fmt.Sprintf("(N.to_nat %d%%N)", n)
 }
